@@ -34,6 +34,7 @@ INCRATE_FILES = {
     "int_set.rs": ("read_in", "collections::int_set::verif_harness"),
     "range_set.rs": ("read_in", "collections::range_set::verif_harness"),
     "engine.rs": ("skrifa_in", "outline::glyf::hint::engine::verif_harness"),
+    "engine_ops.rs": ("skrifa_in", "outline::glyf::hint::engine::verif_harness"),
     "traversal.rs": ("skrifa_in", "color::traversal::verif_harness"),
     "simple.rs": ("write_in", "tables::glyf::simple::verif_harness"),
     "cmap.rs": ("write_in", "tables::cmap::verif_harness"),
@@ -50,7 +51,13 @@ def _scan_file(path):
     src = open(path).read()
     lines = src.split("\n")
     out = []
+    sub = ""
     for i, line in enumerate(lines):
+        mm = re.match(r"pub mod (\w+) \{", line)
+        if mm:
+            sub = mm.group(1) + "::"
+        elif line == "}":
+            sub = ""
         m = FN_RE.search(line) or MACRO_RE.match(line)
         if not m:
             continue
@@ -68,6 +75,7 @@ def _scan_file(path):
                     elif k in ("tier", "timeout", "c20", "mem", "expect"):
                         ann[k] = v or True
             j -= 1
+        ann["submod"] = sub
         out.append((m.group(1), ann))
     return out
 
@@ -101,7 +109,7 @@ def scan():
             for fn, ann in _scan_file(f):
                 ann["bound"] = fa["bound"] + ann["bound"]
                 ann["assume"] = fa["assume"] + ann["assume"]
-                hs.append({"crate": key, "name": "%s::%s" % (mod, fn), "fn": fn, "file": f,
+                hs.append({"crate": key, "name": "%s::%s%s" % (mod, ann.get("submod", ""), fn), "fn": fn, "file": f,
                            "mod": mod, "prop": "C" + fn[1:3], "ann": ann})
     for fname, (key, modpath) in INCRATE_FILES.items():
         f = os.path.join(H, "incrate", fname)
@@ -132,11 +140,13 @@ def write_dispatch(crate_key, harnesses):
 
 def write_incrate_dispatch(harnesses):
     """one dispatch file per in-crate harness file, included by that file"""
+    done = set()
     for fname, (key, modpath) in INCRATE_FILES.items():
         f = os.path.join(H, "incrate", fname)
-        if not os.path.exists(f):
+        if not os.path.exists(f) or modpath in done:
             continue
-        items = [h for h in harnesses if h["file"] == f]
+        done.add(modpath)
+        items = [h for h in harnesses if h["mod"] == modpath]
         body = "fn verif_dispatch(name: &str) -> Option<fn()> {\n    Some(match name {\n"
         for h in items:
             body += '        "%s" => %s as fn(),\n' % (h["name"], h["fn"])
